@@ -66,12 +66,32 @@ def history_of_pair(m, cur, o, control_size=0):
             "ticks": [{"out": float(o).hex(), "control": control_size > 0, "readings": None}]}
 
 
+def large_clock_history(rng, cs):
+    m = rng.choice([0.25, 0.5, 1.0])
+    base = 2.0 ** 31 + rng.randint(0, 10**6) / 16.0
+    t = base
+    ticks = []
+    for _ in range(rng.randint(1, 4)):
+        out = t + rng.randint(1, 40) / 16.0
+        rs = None
+        if rng.random() < 0.6:
+            rs = [[float(t + rng.randint(0, 24) / 16.0).hex(), rng.randint(0, 2)] for _ in range(rng.randint(1, 3))]
+            t = float.fromhex(rs[-1][0])
+        ticks.append({"out": float(out).hex(), "control": cs > 0, "readings": rs})
+    return {"max_dt": float(m).hex(), "control_size": cs, "start": float(base).hex(), "ticks": ticks}
+
+
 def gen_histories(rng, n, allow_missing_control=True):
     hs = []
     for i in range(n):
         m = rng.choice(MAXDTS)
         cs = rng.choice([0, 1])
         t = rng.choice([0.0, round(rng.uniform(-50, 50), 3), rng.uniform(-1000, 1000)])
+        if i % 12 == 7:
+            # clock values of the size of Unix-epoch seconds, on a dyadic grid so that every time and every difference
+            # is exact in binary64: thresholds meant as absolute (1e-9 s) must not scale with the size of the clock
+            hs.append(large_clock_history(rng, cs))
+            continue
         start = t
         ticks = []
         for _ in range(rng.randint(1, 5)):
